@@ -138,8 +138,8 @@ def check_frames(prog, r):
                        "a message is returned after consuming n >= %s bytes (header is %d): a length field below the header size yields messages without consuming input (endless loop)" % (lo, hdr), fv.loc(cons[0]))
 
 
-def check_need_more(prog, r):
-    for nm in (r"rustybgp_packet::bgp::PeerCodec::try_parse", r"rustybgp_packet::<rpki::RtrCodec as tokio_util::codec::Decoder>::decode"):
+def check_need_more(prog, r, names=(r"rustybgp_packet::bgp::PeerCodec::try_parse", r"rustybgp_packet::<rpki::RtrCodec as tokio_util::codec::Decoder>::decode")):
+    for nm in names:
         k = prog.one(nm)
         fv = view(prog, k)
         r.analysed(fv.name)
